@@ -250,6 +250,7 @@ VARIANTS = [
     V("blockwise label lists taken from the cohort map instead of the blocks", ("C18", "C16"), "R-BLOCKLABELS", "core.py", '            groups_in_block = tuple(labels_of(by_input[slc]) for slc in slices)', '            groups_in_block = tuple(labels_of(by_input[slc]) for slc in slices)\n            if chunks_cohorts and len(chunks_cohorts) == len(groups_in_block):\n                groups_in_block = tuple(np.asarray(c) for c in chunks_cohorts.values())', must_mention="mapping"),
     V("variance finalizer does not clamp its difference of squares", ("C02", "C04"), "R-NANFINAL", "aggregations.py", '    result = np.maximum(result, 0)\n', '', must_mention="negative"),
     V("twin: variance finalizer clamps with np.clip", ("C02", "C04"), "", "aggregations.py", '    result = np.maximum(result, 0)\n', '    result = np.clip(result, 0, None)\n', expect="silent"),
+    V("positions un-sorted through an empty sorter", ("C19",), "R-EMPTYIDX", "core.py", '            if not sort and len(expect) > 0:', '            if not sort:', must_mention="sorter"),
     V("dtype promotion memoised with an untyped key", ("C14",), "R-MEMO", "xrdtypes.py", '        dtype = np.result_type(dtype, fill_value)\n    return dtype\n',
       '        dtype = _promote_for_fill_value(dtype, fill_value)\n    return dtype\n\n\n@functools.lru_cache\ndef _promote_for_fill_value(dtype: np.dtype, fill_value) -> np.dtype:\n    return np.result_type(dtype, fill_value)\n', must_mention="typed"),
     V("twin: dtype promotion memoised with typed=True", ("C14",), "", "xrdtypes.py", '        dtype = np.result_type(dtype, fill_value)\n    return dtype\n',
